@@ -105,6 +105,8 @@ def generate(rng, prop, tier, index):
         st = {'target': target, 'assign': gen_assign(rng, sorted(outs),
                                                      target),
               'flags': rng.choice([[], [], ['-q'], ['--debug']])}
+        if rng.random() < 0.4:
+            st['shuffle'] = rng.randrange(10**6)
         if rng.random() < 0.33:
             st['fail'] = {'kind': rng.choice(FAIL_KINDS),
                           'section': rng.choice(SECTIONS),
@@ -429,6 +431,23 @@ def execute(sc):
                 elif fkind == 'write-fault':
                     write_plan = {'kind': 'W-ERR', 'k': fail['k'],
                                   'errno': 'EIO'}
+            if st.get('shuffle') is not None:
+                # options in another order, OUT not necessarily first
+                head = argv[:argv.index('build') + 1]
+                tail = argv[len(head):]
+                groups = []
+                i = 0
+                while i < len(tail):
+                    if tail[i].startswith('--') and \
+                            not tail[i].startswith('--empty') and \
+                            i + 1 < len(tail):
+                        groups.append(tail[i:i + 2])
+                        i += 2
+                    else:
+                        groups.append(tail[i:i + 1])
+                        i += 1
+                core.derive_rng(st['shuffle'], 'argv', 0).shuffle(groups)
+                argv = head + [x for g_ in groups for x in g_]
             before = w.snap(out_rel)
             before_probe = w.snap(probe_rel) if probe_rel else None
             exc = None
